@@ -70,7 +70,12 @@ impl QueuingMetricSinkBuilder {
 
         spawn_worker_in_thread(worker.clone());
 
-        QueuingMetricSink { worker, sink }
+        let stopper = Arc::new(WorkerStopper { worker: worker.clone() });
+        QueuingMetricSink {
+            worker,
+            sink,
+            _stopper: stopper,
+        }
     }
 
     /// Set error handler called when the wrapped sink fails to emit a metric.
@@ -145,6 +150,7 @@ impl QueuingMetricSinkBuilder {
 pub struct QueuingMetricSink {
     worker: Arc<Worker>,
     sink: Arc<dyn MetricSink + Send + Sync + RefUnwindSafe>,
+    _stopper: Arc<WorkerStopper>,
 }
 
 impl fmt::Debug for QueuingMetricSink {
@@ -279,7 +285,13 @@ impl MetricSink for QueuingMetricSink {
     }
 }
 
-impl Drop for QueuingMetricSink {
+/// Guard shared by a `QueuingMetricSink` and all of its clones: the worker is
+/// only told to stop once the last of them has been dropped.
+struct WorkerStopper {
+    worker: Arc<Worker>,
+}
+
+impl Drop for WorkerStopper {
     /// Send the worker a signal to stop processing metrics.
     ///
     /// Note that this destructor only sends the worker thread a signal to
